@@ -298,8 +298,7 @@ theorem sinv_step {s : Sem} {op : SOp} (hi : SInv s) (hn : op.nonneg = true) :
       have hc : ¬ (s.cur - n < 0) := by rw [hi.acct, ← hs]; omega
       split
       · exact ⟨hi1, rfl, by simp⟩
-      · simp only [hc, if_false]
-        obtain ⟨a, b⟩ := sinv_notify hi1
+      · obtain ⟨a, b⟩ := sinv_notify hi1
         refine ⟨a, b, ?_⟩
         simp [Sem.notify]
 
